@@ -569,3 +569,24 @@ h_zero!(c20_q_zero_f8x2_f8x3, 6, f8x2(anylen(16)), df8x2, anylen(24), 24, df8x3)
 h_zero!(c20_q_zero_afix_afix, 6, bvfix(anylen(128)), afix, anylen(128), 128, afix);
 h_zero!(c20_t_zero_bvd2l9_bvd1l7, 6, bvd2(9), d2, 7, 64, d1);
 h_zero!(c20_t_zero_adyn1l9_afix, 6, bvdyn1(9), adyn1, anylen(128), 128, afix);
+
+// ---- added after seeded changes slipped through the quick tier ---------------------------------
+// (1) the hand-written `&Bvd << k` / `&Bvd >> k` against the in-place form with **u128** amounts
+//     (amounts >= 2^64 whose low word is small take a different path in a truncating cast);
+h_pair!(c20_q_shl_ao_bvd2l65_u128, 6, ao, bvd2(65), d2, iu128(), du128, <<, <<=, any, w_shc);
+h_pair!(c20_q_shr_ao_bvd2l65_u128, 6, ao, bvd2(65), d2, iu128(), du128, >>, >>=, any, w_shc);
+h_pair!(c20_q_shl_oo_bvd1l1_u128, 4, oo, bvd1(1), d1, iu128(), du128, <<, <<=, any, w_shc);
+h_pair!(c20_t_shr_ar_bvd2l128_u128, 6, ar, bvd2(128), d2, iu128(), du128, >>, >>=, any, w_shc);
+// (2) the storage-less empty `Bvd` (no allocated word) as either operand of every form of `*`.
+fn d0(_r: &RawV) -> Bvd {
+    Bvd::new(Box::new([0u64; 0]) as Box<[u64]>, 0)
+}
+macro_rules! w_none {
+    ($ra:ident, $rb:ident) => {
+        w!($ra.len == 0 || $rb.len == 0, "an operand without storage");
+    };
+}
+h_six!(c20_q_mul_bvd1l8_bvd0, 4, bvd1(8), d1, bvd0(0), d0, *, *=, any, w_none);
+h_six!(c20_q_mul_bvd0_bvd1l8, 4, bvd0(0), d0, bvd1(8), d1, *, *=, any, w_none);
+h_six!(c20_q_add_bvd1l8_bvd0, 4, bvd1(8), d1, bvd0(0), d0, +, +=, any, w_none);
+h_six!(c20_q_xor_bvd0_bvd1l8, 4, bvd0(0), d0, bvd1(8), d1, ^, ^=, any, w_none);
